@@ -5,6 +5,7 @@ from collections import Counter
 
 from .core import VERIF
 from .lib import callers, status_const_of_ctor
+from .lib_c13 import site_what
 from .lib_c16 import (PANIC_KINDS_TEXT, SELECT_OUT, SERVE, SPAWN, accept_arms, after_await, awaits, discr_switches, exits_only_on_close_signal,
                       load_panic_table, norm_fid, owner_fn, panic_sites, result_switches_of, return_defs, rta_region, server_task, slice_has_call_at, variant_edge)
 
@@ -21,10 +22,12 @@ LEVEL_NOTE = "Trusts rustc MIR, the extractor, tokio::spawn panic isolation, tok
 EXPLANATION = ("Rules over the MIR of server::HttpAcceptor::accept, HttpsAcceptor::new_stream, the server task in HttpServerStarter::start, http_request_handle_wrap, Service::call and the "
                "From<hyper::Error>/From<http::Error> impls from the current tree: DOM/PASS (Err edges loop back; returns only under the Ok edge / the select! Disabled arm), forward flow "
                "(connection and negotiation futures reach only spawn / FuturesUnordered::push), TABLE (wrap's result arms -> Ok(response)), CENSUS (panic sites in two call-graph regions "
-               "vs tables/c18_panics.txt, keyed (region, source-level function item, kind, callee-or-assert-kind) with multiplicity -- closures, async blocks and inlined private helpers count "
+               "vs tables/c18_panics.txt, keyed (region, source-level function item, kind, what) with multiplicity, evaluated on the normalised view -- `what` is the tested value and panicking variant "
+               "(`Option::None <- origin`) for a site that tests an Option/Result, whatever its spelling (unwrap / expect / let-else / match arm / combinator closure), else the callee or assert kind; "
+               "closures, async blocks and inlined private helpers count "
                "with the function they are written in; foreign-macro expansions bucketed per function; debug_assert! bodies and match arms of an enum variant the scrutinee provably cannot "
                "hold at that point are not sites).")
-TRUSTED = ["rustc nightly MIR + const evaluation", "mirfacts extractor", "rules/engine.py + rules/lib_c16.py", "tables/c18_panics.txt (each line reviewed)", "tokio / hyper / async-stream semantics"]
+TRUSTED = ["rustc nightly MIR + const evaluation", "mirfacts extractor", "rules/engine.py + rules/lib_c16.py + rules/lib_c13.py (what a panic site tests)", "tables/c18_panics.txt (each line reviewed)", "tokio / hyper / async-stream semantics"]
 
 TABLE = os.path.join(VERIF, "tables", "c18_panics.txt")
 _FWD_PLUMBING = r"UpgradeableConnection::<'_, I, S, E>::into_owned$|graceful::GracefulShutdown::watch$|^tokio::spawn$|mem::drop$"
@@ -217,15 +220,20 @@ def _accept_roots(ctx, R):
     return roots
 
 
-def _census(ctx, R, region_name, fids, rows):
+def _census(ctx, D, R, region_name, fids, rows):
     found = Counter()
     where = {}
     for fid in sorted(fids):
-        g = ctx.ds.F[fid]
+        g = D.F[fid]
         # a site is attributed to the source-level function item it is written in: whether it sits in the body, in a
         # closure / async block of it, or in a private helper that was inlined into it is a matter of style
-        item = norm_fid(owner_fn(ctx.ds, g).id)
+        item = norm_fid(owner_fn(D, g).id)
         for kind, what, bucket, bb in panic_sites(g):
+            if kind == "call" and not bucket:
+                # an unwrap-like site is keyed by what it tests (`Option::None <- <origin of the value>`), not by how the
+                # test is spelled: `.expect("..")`, `let Some(x) = v else { panic!("..") }` and a match with an
+                # unreachable!() arm on the same value are one line of the table
+                what = site_what(g, bb, what)
             k = (region_name, item, ("macro-" + kind) if bucket else kind, what)
             found[k] += 1
             where.setdefault(k, (g, bb))
@@ -250,14 +258,17 @@ def r4_panic_census(ctx):
     rows, errs = load_panic_table(TABLE, ctx.features)
     for e in errs:
         ctx.check(R, "table-format:%s" % e, False, e, None, nontrivial=False)
-    wrap = ctx.need_fn(ctx.ds, R, r"^server::http_request_handle_wrap$")
-    who = [f.id for f, bb, t in callers(ctx.ds, r"^server::http_request_handle_wrap$")]
-    req = rta_region(ctx.ds, [wrap.id] + who)
-    acc = rta_region(ctx.ds, _accept_roots(ctx, R)) - req
+    # normalised view: a closure handed to an Option/Result combinator (`.unwrap_or_else(|e| unreachable!(..))`, `.map(|v| v.unwrap())`)
+    # is spliced into the arm of a switch on the receiver, so a site in it is the same site as in the `match` it abbreviates
+    D = ctx.dsn
+    wrap = ctx.need_fn(D, R, r"^server::http_request_handle_wrap$")
+    who = [f.id for f, bb, t in callers(D, r"^server::http_request_handle_wrap$")]
+    req = rta_region(D, [wrap.id] + who)
+    acc = rta_region(D, _accept_roots(ctx, R)) - req
     ctx.notes["C18.R4 regions"] = {"request": len(req), "accept": len(acc)}
     ctx.check(R, "region-sizes", len(req) >= 150 and len(acc) >= 15, "functions analysed: request path %d, accept path %d (outside the request path)" % (len(req), len(acc)), wrap, nontrivial=False)
-    f1, stale1 = _census(ctx, R, "request", req, rows)
-    f2, stale2 = _census(ctx, R, "accept", acc, rows)
+    f1, stale1 = _census(ctx, D, R, "request", req, rows)
+    f2, stale2 = _census(ctx, D, R, "accept", acc, rows)
     ctx.notes["C18.R4 table lines without a site on this tree"] = [" | ".join(k) for k in stale1 + stale2]
     bad_region = [k for k in rows if k[0] not in ("request", "accept")]
     ctx.check(R, "table-regions-known", not bad_region, "table lines with an unknown region: %s" % bad_region, None, nontrivial=False)
@@ -346,6 +357,12 @@ SELFTEST = [
      "edits": [(_S, "        http::header::HeaderValue::from_str(&request_id).unwrap(),\n", "        {\n            let to_header = |id: &str| http::header::HeaderValue::from_str(id).unwrap();\n            to_header(&request_id)\n        },\n")]},
     {"name": "option-filled-then-matched", "kind": "benign", "why": "behaviour-preserving: `get_or_insert_with` written as `if is_none() { = Some(..) }` followed by a match whose None arm is unreachable!() -- dead code, not a new panic site",
      "edits": [("dropshot/src/error.rs", "        self.headers.get_or_insert_with(|| Box::new(http::HeaderMap::new()))", "        if self.headers.is_none() {\n            self.headers = Some(Box::new(http::HeaderMap::new()));\n        }\n        match self.headers {\n            Some(ref mut header_map) => header_map,\n            None => unreachable!(\"header map was just created\"),\n        }")]},
+    {"name": "expect-as-let-else", "kind": "benign", "why": "behaviour-preserving: `opt.expect(\"..\")` written as `let Some(x) = opt else { panic!(\"..\") }` -- the same panic under the same condition; the census keys an unwrap-like site by the value it tests, not by the callee",
+     "edits": [("dropshot/src/error.rs", "                .expect(\"a newly created response builder cannot have failed\");",
+                "                ;\n            let Some(builder_headers) = builder_headers else {\n                panic!(\"a newly created response builder cannot have failed\")\n            };")]},
+    {"name": "let-else-on-another-option", "kind": "mutant", "why": "a let-else that panics when the error carries no extra headers: every plain error response panics the connection task (a different tested value than the reviewed headers_mut() site)",
+     "edits": [("dropshot/src/error.rs", "        if let Some(headers) = self.headers {\n", "        {\n            let Some(headers) = self.headers else { panic!(\"an error without headers\") };\n")],
+     "expect": ["C18.R4"]},
     {"name": "option-matched-without-filling", "kind": "mutant", "why": "the None arm of the match is reachable (the map is only created for some errors): every error response without extra headers panics the connection task",
      "edits": [("dropshot/src/error.rs", "        self.headers.get_or_insert_with(|| Box::new(http::HeaderMap::new()))", "        if self.headers.is_none() && self.error_code.is_some() {\n            self.headers = Some(Box::new(http::HeaderMap::new()));\n        }\n        match self.headers {\n            Some(ref mut header_map) => header_map,\n            None => unreachable!(\"header map was just created\"),\n        }")],
      "expect": ["C18.R4"]},
